@@ -989,6 +989,8 @@ struct FrameCase {
     assertion: Option<(usize, Kind, usize, bool, bool)>,
     pred: Option<Pred>,
     expect: Expect,
+    /// a second assertion directly behind the first one, at the same address (fails no earlier than the first)
+    second: Option<String>,
 }
 
 impl FrameCase {
@@ -1004,6 +1006,7 @@ impl FrameCase {
             "value_from_visit": self.assertion.map(|a| a.2),
             "true_at_that_visit": self.assertion.map(|a| a.3),
             "custom_msg": self.assertion.map(|a| a.4),
+            "second_assertion": self.second,
         })
     }
     /// Renders the case as one test named `name`, appended to `lines`.
@@ -1013,6 +1016,10 @@ impl FrameCase {
         let assertion = self.assertion.map(|a| (a.0, expr.as_str(), a.4));
         let assert_line = render_test(lines, p, assertion, name, wrap);
         let assert_line_len = assert_line.map(|l| lines[l - 1].len()).unwrap_or(0);
+        if let (Some(l), Some(second)) = (assert_line, &self.second) {
+            // (inserted directly behind the first assertion: same gap, same address)
+            lines.insert(l, format!("    .assert {} \"second assertion\"", second));
+        }
         TestExp {
             path: match wrap {
                 Some(w) => format!("{}.{}", w, name),
@@ -1059,6 +1066,7 @@ fn unit_cases(frame: Frame, body: &[usize], p: &Prog, r: &RefRun) -> Vec<FrameCa
         assertion: None,
         pred: None,
         expect: if r.terminated { Expect::Pass } else { Expect::NoVerdict },
+        second: None,
     });
     for g in 0..p.gaps.len() {
         let visits = &r.visits[g];
@@ -1083,8 +1091,27 @@ fn unit_cases(frame: Frame, body: &[usize], p: &Prog, r: &RefRun) -> Vec<FrameCa
                             assertion: Some((g, kind, n, truth, custom)),
                             pred: Some(pred),
                             expect: expect.clone(),
+                            second: None,
                         });
                     }
+                }
+            }
+        }
+        // two assertions at one address that both hold at the first visit and both fail at the second: the failure
+        // that is reported is the first one's
+        if visits.len() >= 2 && visits[0].x != visits[1].x {
+            let pred = Pred::X(visits[0].x as u32);
+            let expect = expectation(pred, visits, r.terminated);
+            if expect == Expect::Fail(2) {
+                for custom in [false, true] {
+                    cases.push(FrameCase {
+                        frame,
+                        body: body.to_vec(),
+                        assertion: Some((g, Kind::X, 1, true, custom)),
+                        pred: Some(pred),
+                        expect: expect.clone(),
+                        second: Some(format!("cpu.x != {}", visits[1].x)),
+                    });
                 }
             }
         }
